@@ -40,7 +40,7 @@ class Job:
                  loops=None, dfcc=None, unwind=None, unwindset=None, checks=None, extra_cbmc=(),
                  solver=None, timeout=600, mem_gb=8, status="proved", bound="", native=True,
                  native_sources=None, sample=None, object_bits=None, extra_cc=(), no_default_checks=False,
-                 pre_unwindset=None, known=None):
+                 pre_unwindset=None, known=None, tu_included=()):
         self.name = name                # unique within the property
         self.group = group              # contract group (evidence aggregates per group)
         self.harness = harness          # file under /verif/contracts
@@ -65,6 +65,7 @@ class Job:
         self.object_bits = object_bits
         self.extra_cc = list(extra_cc)
         self.pre_unwindset = list(pre_unwindset or [])
+        self.tu_included = list(tu_included)  # /repo .c files #included by the harness (left out of the native link)
         self.known = known              # id of a known-finding region this job is the witness for (see runner)
         # filled by run()
         self.result = None
@@ -409,7 +410,19 @@ def native_replay(job, inputs, outdir, obligation):
     exe = os.path.join(WORK, job.prop, job.key(), "replay.exe")
     os.makedirs(os.path.dirname(exe), exist_ok=True)
     defs = list(BASE_DEFS) + ["-DOFV_NATIVE"] + ["-D%s=%s" % (k, v) if v is not None else "-D%s" % k for k, v in job.defines.items()]
-    nsrc = job.native_sources if job.native_sources is not None else job.repo_sources
+    if job.native_sources is not None:
+        nsrc = job.native_sources
+    else:
+        # link the harness against the whole library, minus the files it #includes as translation units
+        nsrc = []
+        for root, _, files in os.walk(os.path.join(REPO, "src")):
+            if "lib_advanced" in root:
+                continue
+            for fn in sorted(files):
+                if fn.endswith(".c"):
+                    rel = os.path.relpath(os.path.join(root, fn), REPO)
+                    if rel not in job.tu_included:
+                        nsrc.append(rel)
     srcs = [os.path.join(VERIF, "contracts", job.harness), os.path.join(VERIF, "contracts", "ofv_native.c")] + [os.path.join(REPO, s) for s in nsrc]
     cmd = ["gcc", "-g", "-O0", "-w", "-fsanitize=address,undefined", "-fno-sanitize-recover=undefined", "-fno-omit-frame-pointer"] + defs + inc_flags() + srcs + ["-lm", "-o", exe]
     rc, out, _ = sh(cmd, 300, 64)
